@@ -531,6 +531,19 @@ def full_stack(ctx, thorough, rng):
                               kind="history", level="full-stack", gen=gen, scenario={"horizon": 120, "sessions": k + 2},
                               implementation_output={"init_result": b.get("init_result"), "init_done_at": b.get("init_done_at")}, spec_verdict="init() returns True with the described model")
                 break
+        # a session abandoned while its connection attempt is still in flight (the console is unreachable: init() gives up after 5 s,
+        # the application shuts the client down), then a new session against a console that answers at once
+        for lat, when in ((56, 45), (56, 41), (200, 60), (41, 40)):
+            sc0 = dict(inst=fullstack.INST, latency=lat, reinit_latency=0, horizon=lat + 80)
+            o = fullstack.run(gen, sc0, ("tick", when, 1), True)
+            ctx.case(("full-stack-abandoned", gen, lat, when))
+            if o.get("reinit_result") is not True or o.get("reinit_view") != ref_view:
+                ctx.violation("C09:%d:full-stack:after-abandoned-session" % gen, "AirTouch %d over the real socket: init() against an unreachable console (connect takes %d ticks) "
+                              "returned, shutdown() was called %d ticks after init() with the connection attempt still in flight, then init() against a console that answers "
+                              "at once returned %s%s" % (gen, lat, when, o.get("reinit_result"), "" if o.get("reinit_view") == ref_view else " (object model not the described one)"),
+                              kind="history", level="full-stack", gen=gen, scenario={"latency": lat, "reinit_latency": 0, "horizon": lat + 80, "shutdown_at": when},
+                              implementation_output={"reinit_result": str(o.get("reinit_result"))}, spec_verdict="the later init() returns True with the described model")
+                break
         for sc in scen:
             b = fullstack.run(gen, sc)
             key = {k: v for k, v in sc.items() if k != "inst"}
